@@ -261,20 +261,20 @@ Qed.
 
 (* ------------------------------------------------------------------ every operation is an execution *)
 
-Lemma step_exec e s o : exec e (has_weights o) s (log (snd (step e s o))) (fst (step e s o)).
+Lemma step_exec e s o : exec e (forces_enable e o) s (log (snd (step e s o))) (fst (step e s o)).
 Proof.
   destruct o as [r|rs|rs al|k n sk|k rs| | |mv rs|fl|rs dl|rs dl|k ns]; cbn [step].
   - (* OAdd *)
-    pose proof (do_write_exec e (has_weights (OAdd r)) (fk_of (r_kind r)) (r_name r) (r_ver r) s) as H1.
+    pose proof (do_write_exec e (forces_enable e (OAdd r)) (fk_of (r_kind r)) (r_name r) (r_ver r) s) as H1.
     destruct (do_write _ _ _ s) as [s1 l1]. cbn [fst snd] in H1.
     unfold finish_reload.
     match goal with |- context [do_reload e false ?s2] =>
-      pose proof (do_reload_exec e (has_weights (OAdd r)) false s2) as H2;
+      pose proof (do_reload_exec e (forces_enable e (OAdd r)) false s2) as H2;
       destruct (do_reload e false s2) as [[s3 lr] f] end.
     cbn [fst snd log] in *.
     eapply exec_app; [exact H1|].
-    unfold has_weights in *. destruct (r_kind r); try exact H2.
-    destruct (0 <? r_weights r)%nat; [|exact H2].
+    unfold forces_enable, has_weights in *. destruct (r_kind r); try exact H2.
+    destruct ((0 <? r_weights r)%nat && negb (fx_weights (fx e))); [|exact H2].
     apply x_silent; [reflexivity|exact H2].
   - pose proof (do_writes_exec e false rs s) as H1. destruct (do_writes rs s) as [s1 l1].
     apply finish_reload_exec. exact H1.
@@ -301,7 +301,7 @@ Proof.
 Qed.
 
 Lemma run_exec e os : forall s w,
-  (forall o, In o os -> has_weights o = true -> w = true) ->
+  (forall o, In o os -> forces_enable e o = true -> w = true) ->
   exec e w s (trace (snd (run e s os))) (fst (run e s os)).
 Proof.
   induction os as [|o os IH]; intros s w Hw; cbn; [apply x_nil|].
@@ -309,7 +309,7 @@ Proof.
   specialize (IH s1 w (fun o' Hin => Hw o' (or_intror Hin))).
   destruct (run e s1 os) as [s2 xs]. cbn [fst snd] in *.
   unfold trace. cbn. eapply exec_app; [|exact IH].
-  destruct (has_weights o) eqn:Ho.
+  destruct (forces_enable e o) eqn:Ho.
   - rewrite (Hw o (or_introl eq_refl) Ho). exact H1.
   - destruct w; [apply exec_weaken|]; exact H1.
 Qed.
@@ -317,7 +317,7 @@ Qed.
 (* ------------------------------------------------------------------ T1: the held-back window *)
 
 Theorem no_reload_while_held_partial : forall e os s,
-  (forall o, In o os -> has_weights o = false) ->
+  (forall o, In o os -> forces_enable e o = false) ->
   held_scan (negb (enabled s)) (trace (snd (run e s os))) = Some (negb (enabled (fst (run e s os)))).
 Proof.
   intros e os s Hw. apply (exec_held e). apply run_exec.
@@ -327,12 +327,21 @@ Qed.
 Definition vs_with_weights : res :=
   {| r_kind := KVS; r_name := "vs_default_w"; r_ver := 0; r_apis := [["vs_default_w_u0"; "vs_default_w_u1"]]; r_weights := 1 |}.
 
-Definition env_ok (p : bool) : env := {| plus := p; ro := fun _ => true; ao := fun _ => true |}.
+Definition env_ok (p : bool) : env := {| plus := p; ro := fun _ => true; ao := fun _ => true; fx := no_fixes |}.
+
+(* with F15 repaired the restriction disappears: every history, from every state *)
+Theorem no_reload_while_held_fixed : forall e os s,
+  fx_weights (fx e) = true ->
+  held_scan (negb (enabled s)) (trace (snd (run e s os))) = Some (negb (enabled (fst (run e s os)))).
+Proof.
+  intros e os s F. apply no_reload_while_held_partial. intros o _.
+  unfold forces_enable. rewrite F. apply andb_false_r.
+Qed.
 
 (* F15: AddOrUpdateVirtualServer with weight updates reloads inside the start-up window *)
 Theorem no_reload_while_held_refuted :
-  exists e os, held_scan (negb (enabled init)) (trace (snd (run e init os))) = None.
-Proof. exists (env_ok false), [OAdd vs_with_weights]. vm_compute. reflexivity. Qed.
+  exists e os, fx e = no_fixes /\ held_scan (negb (enabled init)) (trace (snd (run e init os))) = None.
+Proof. exists (env_ok false), [OAdd vs_with_weights]. split; [reflexivity|]. vm_compute. reflexivity. Qed.
 
 (* ------------------------------------------------------------------ ghost state *)
 
@@ -619,7 +628,7 @@ Proof.
   assert (Hp : endp_pushes o = true \/ is_endp o = true).
   { destruct o; cbn; auto. }
   pose proof (step_exec e s o) as X. rewrite H in X. cbn [fst snd] in X.
-  assert (X' : exec e true s (log x) s') by (destruct (has_weights o); [exact X|apply exec_weaken; exact X]).
+  assert (X' : exec e true s (log x) s') by (destruct (forces_enable e o); [exact X|apply exec_weaken; exact X]).
   pose proof (exec_dirty _ _ _ _ _ X') as Hd. rewrite D in Hd.
   assert (Hs : pend_scan false (log x) = false).
   { destruct (is_endp o) eqn:Ie.
